@@ -333,6 +333,12 @@ def _run_meshio(case):
         v = []
         if other.Nn != mesh.Nn or not _eq(np.array(other.coord), np.array(mesh.coord)):
             v.append(viol("mesh_load_coords", f"{et}/{src} after {case['ops']}: loaded coordinates differ", **key))
+        for dd in range(1, 4):
+            o0 = [g.elemType.name for g in mesh.Get_list_groupElem(dd)]
+            o1 = [g.elemType.name for g in other.Get_list_groupElem(dd)]
+            if o0 != o1:
+                # the element numbering of a mesh (mesh.Ne, element results) follows this order
+                v.append(viol("mesh_load_group_order", f"{et}/{src}: groups of dimension {dd} come back in another order: saved {o0}, loaded {o1}", **key))
         if set(k.name for k in other.dict_groupElem) != set(k.name for k in mesh.dict_groupElem):
             v.append(viol("mesh_load_groups", f"{et}/{src}: groups {sorted(k.name for k in other.dict_groupElem)} vs {sorted(k.name for k in mesh.dict_groupElem)}", **key))
         else:
@@ -533,6 +539,13 @@ def _run(case, scn, tmp):
             simu.mesh = scn.replacement(key) if hasattr(scn, "replacement") else scn.mesh(key)
         elif op == "saveload":
             folder = os.path.join(tmp, "S%d" % len(done))
+            if "saveload" in done[:-1]:
+                # a results folder that already holds the mesh files of ANOTHER run (same file names, other mesh)
+                decoy = scn.mesh(scn.mesh1 if key == scn.mesh0 else scn.mesh0)
+                decoy.Translate(0.77, 0.33, 0.0)
+                with _quiet():
+                    for i in range(4):
+                        decoy.Save(os.path.join(folder, "Meshes"), f"mesh{i}")
             try:
                 with _quiet():
                     simu.Save(folder)
@@ -569,6 +582,16 @@ def _run(case, scn, tmp):
                         break
             if not _eq(scn.fields(other), scn.fields(simu)):
                 out.append(viol("load_state", f"after {done}: loaded simulation's current fields differ", **kk))
+            if not out and not (hasattr(scn, "replacement") and "replacemesh" in done):
+                for i, s in enumerate(snaps):
+                    try:
+                        other.Set_Iter(i)
+                    except Exception as err:
+                        out.append(viol("load_restore_raises", f"after {done}: loaded simulation: Set_Iter({i}) raised {type(err).__name__}: {str(err)[:120]}", **kk))
+                        break
+                    if other.mesh.Nn != s["Nn"] or not _eq(np.array(other.mesh.coord), s["coords"]):
+                        out.append(viol("load_restore_mesh", f"after {done}: loaded simulation: Set_Iter({i}) does not bring back the mesh of iteration {i}", **kk))
+                        break
         return out
 
     for op in PREFIXES[case["prefix"]] + case["ops"]:
